@@ -196,7 +196,10 @@ def run(ctx):
     # ---- R5 next-connect address
     r = ctx.rule("R5", "the endpoint is built from host/port read at connect time; updateMetadata checks the node id first", 2, "A")
     conn = ctx.func("brokerclient:_KafkaBrokerClient._connect")
-    cn = conn.nested.get("connect")
+    # the function that builds the endpoint: it has to be one of the closures run per attempt (not _connect's own body,
+    # which runs once while retries happen later)
+    cns = [g for g in conn.nested.values() if calls_in(g, "_endpointFactory")]
+    cn = cns[0] if len(cns) == 1 and not calls_in(conn, "_endpointFactory") else None
     ef = [c for c in (calls_in(cn, "_endpointFactory") if cn else [])]
     r.check(cn is not None and len(ef) == 1 and [norm(a) for a in ef[0].args[1:3]] == ["self.host", "self.port"], "%s#address-at-connect-time" % conn.qname,
             "the endpoint address is captured before the connect attempt (stale after updateMetadata)", where(conn, conn.node),
